@@ -73,16 +73,27 @@ def composite(ctx, report, rule, facts, config, im, bodies, kind, label, methods
         report.touched(b, config)
         n += 1
         problems = []
-        paths = [p for p in enumerate_paths(b, facts) if p.end == "return"]
+        from . import semq as Q
+        from .worldrules import _deep_all
+        try:
+            world_api = sorted(x.key for x in facts.bodies.values() if not x.is_closure and x.self_head == A.WORLD and x.container == "inherent")
+            ev, ends = Q.sem(ctx, facts, b, opaque=world_api)
+        except Exception as e_:
+            report.ob(rule, inst, False, "cannot tabulate %s (%s)" % (b.qname, type(e_).__name__), site=b.loc(), config=config)
+            continue
+        paths = [e for e in ends if e.kind == "return"]
         if not paths:
             problems.append("no returning path")
         for p in paths:
-            calls = [e for e in p.calls() if e[2].trait == A.T_SYSDATA and e[2].container == "trait"]
-            same = [e for e in calls if e[2].name == m]
-            other = [e for e in calls if e[2].name != m]
+            allc = [x for x in _deep_all(p.path.events) if x[0] == "call"]
+            if [x for x in p.path.events if x[0] == "loop"]:
+                problems.append("`%s` loops" % m)
+            calls = [x for x in allc if x[2].trait == A.T_SYSDATA and x[2].container == "trait"]
+            same = [x for x in calls if x[2].name == m]
+            other = [x for x in calls if x[2].name != m]
             if other:
                 problems.append("`%s` calls a member's `%s`" % (m, other[0][2].name))
-            got = sorted(nolt(e[2].self_arg_s) for e in same)
+            got = sorted(nolt(ev.self_arg(x[4])) for x in same)
             if got != sorted(members):
                 missing = list(members)
                 for g in got:
@@ -96,33 +107,31 @@ def composite(ctx, report, rule, facts, config, im, bodies, kind, label, methods
                     m, len(got), len(members), missing, (", unexpected %s" % extra) if extra else ""))
                 continue
             if m in ("reads", "writes"):
-                ret = p.ret
+                ret = Q.strip(ev, p.ret)
                 # every delegated result is appended to the returned vector
                 appended = set()
-                for e in p.calls():
-                    if e[2].name in ("append", "extend", "extend_from_slice") and not e[2].local and len(e[3]) == 2:
-                        if e[3][0] == ret:
-                            v = e[3][1]
+                for x in allc:
+                    if x[2].name in ("append", "extend", "extend_from_slice") and not x[2].local and len(x[3]) == 2:
+                        if Q.strip(ev, x[3][0]) == ret:
+                            v = Q.strip(ev, x[3][1], extra=("into_iter",))
                             if isinstance(v, tuple) and v[0] == "call":
                                 appended.add(v[1])
-                for e in same:
-                    if e[1] not in appended:
-                        problems.append("the %s of member %s are computed but not appended to the returned vector" % (m, nolt(e[2].self_arg_s)))
+                for x in same:
+                    if x[1] not in appended:
+                        problems.append("the %s of member %s are computed but not appended to the returned vector" % (m, nolt(ev.self_arg(x[4]))))
             elif m == "fetch":
-                ret = p.ret
-                used = set(s_[1] for s_ in subterms(ret) if s_[0] == "call")
-                for e in same:
-                    if e[1] not in used:
-                        problems.append("member %s is fetched but not part of the returned value" % nolt(e[2].self_arg_s))
+                used = set(s_[1] for s_ in subterms(p.ret) if s_[0] == "call")
+                for x in same:
+                    if x[1] not in used:
+                        problems.append("member %s is fetched but not part of the returned value" % nolt(ev.self_arg(x[4])))
             elif m == "setup":
-                for e in same:
-                    if e[3] != (("param", 1),):
+                for x in same:
+                    if tuple(Q.strip(ev, a) for a in x[3]) != (("param", 1),):
                         problems.append("member setup is not given the world")
-        # no direct world access in a composite
-        for bb, t in b.normal_calls():
-            c = Callee(t["func"])
-            if c.local and c.self_head == A.WORLD:
-                problems.append("composite `%s` touches the world directly through World::%s" % (m, c.name))
+            # no direct world access in a composite
+            for x in allc:
+                if x[2].local and x[2].self_head == A.WORLD:
+                    problems.append("composite `%s` touches the world directly through World::%s" % (m, x[2].name))
         report.ob(rule, inst, not problems, "; ".join(sorted(set(problems))) if problems else
                   "%d member(s), each delegated to exactly once" % len(members), site=b.loc(), config=config)
     return n
